@@ -166,8 +166,21 @@ pub fn vocab_term(fi: usize, profile: gen::NameProfile, depth: u32, size: u32) -
     let v2 = v.clone();
     leaf.prop_recursive(depth, size, 5, move |inner| {
         prop_oneof![
-            35 => (select(v2.connecters.clone()), vec(inner.clone(), 1..=5)).prop_map(|(c, terms)| LT::Compound { connecter: c, terms }),
-            25 => (select(v2.set_brackets.clone()), vec(inner.clone(), 1..=5)).prop_map(|((l, r), terms)| LT::Set { left: l, terms, right: r }),
+            35 => (select(v2.connecters.clone()), vec(inner.clone(), 1..=5), 0u8..6).prop_map(|(c, mut terms, dup)| {
+                if dup == 0 {
+                    // the lexical model keeps repeated components, adjacent ones included
+                    let last = terms[terms.len() - 1].clone();
+                    terms.push(last);
+                }
+                LT::Compound { connecter: c, terms }
+            }),
+            25 => (select(v2.set_brackets.clone()), vec(inner.clone(), 1..=5), 0u8..5).prop_map(|((l, r), mut terms, dup)| {
+                if dup == 0 {
+                    let first = terms[0].clone();
+                    terms.insert(0, first);
+                }
+                LT::Set { left: l, terms, right: r }
+            }),
             40 => (select(v2.copulas.clone()), inner.clone(), inner).prop_map(|(c, s, p)| LT::Statement { copula: c, subject: Box::new(s), predicate: Box::new(p) }),
         ]
     })
